@@ -101,6 +101,7 @@ def t_ld_clear():
         ld, d, q = ld_state(it)
         # a fresh object has nothing unfinished; in general unfinished >= 0 is all that is known
         c.assume(c.hget(q, 'unfinished') >= 0)
+        U0, T0 = c.hget(q, 'unfinished'), c.hget(q, 'qsize')
         mods = [(d, '$items'), (d, '$len'), (q, 'qsize'), (q, 'unfinished')]
         out = framed(it, 'clear:frame', mods, lambda: run_body(it, method(it, ld, 'clear'), []))
         c.prove('LockingDeque.clear:post/returns-normally', out.raised is None)
@@ -108,6 +109,8 @@ def t_ld_clear():
             return
         c.prove('LockingDeque.clear:post/deque-empty', c.hget(d, '$len') == 0)
         c.prove('LockingDeque.clear:post/no-tokens', c.hget(q, 'qsize') == 0)
+        c.prove('LockingDeque.clear:post/only-the-removed-tokens-leave-the-unfinished-count',
+                c.hget(q, 'unfinished') == U0 - T0, tags=('C16', 'C04'))
         c.cover('LockingDeque.clear:cover')
     return Target('LockingDeque.clear', run, ['activeobject.LockingDeque.clear'])
 
@@ -174,10 +177,32 @@ def t_chart_init(host):
                   (['activeobject.ActiveObject.__init__'] if host == 'ActiveObject' else []))
 
 
+def t_chart_init_subclass():
+    """A subclass may declare its own capacity (class attribute QUEUE_SIZE): the chart's queues are bounded by THAT."""
+    def run(it):
+        c = it.c
+        cap = c.fresh('QUEUE_SIZE_of_the_subclass', z3.IntSort())
+        c.assume(cap >= 1)
+        it.w.subclass_consts = {('HsmWithQueues', 'QUEUE_SIZE'): SInt(cap)}
+        try:
+            self = c.fresh_ref('self', 'HsmWithQueues')
+            out = run_body(it, method(it, self, '__init__'), [])
+        finally:
+            it.w.subclass_consts = {}
+        c.prove('HsmWithQueues.__init__[subclass]:post/returns-normally', out.raised is None, tags=('C16',))
+        if out.raised is not None:
+            return
+        for f in ('queue', 'defer_queue'):
+            d = c.read(self, f)
+            c.prove('HsmWithQueues.__init__[subclass]:post/%s-bounded-by-the-capacity-its-class-declares' % f,
+                    c.hget(d, '$maxlen') == cap, tags=('C16',))
+    return Target('HsmWithQueues.__init__[subclass with its own QUEUE_SIZE]', run, ['hsm.HsmWithQueues.__init__'])
+
+
 def build(src, tier):
     w = Q.world_for(src, tier)
     ts = [t_ld_init(), t_ld_put('fifo'), t_ld_put('lifo'), t_ld_take('popleft'), t_ld_take('pop'), t_ld_clear(),
-          t_ld_sizes(), t_chart_init('HsmWithQueues')]
+          t_ld_sizes(), t_chart_init('HsmWithQueues'), t_chart_init_subclass()]
     for host in Q.HOSTS:
         ts += [Q.t_post(host, 'fifo', ('C16',)), Q.t_post(host, 'lifo', ('C16',))]
     return [(w, ts)]
